@@ -13,6 +13,13 @@ import (
 // guardedOrVia: every path to site passes a guard edge of cmps or one of the via
 // instructions.
 func (x *Ctx) guardedOrVia(key string, site ssa.Instruction, cmps []Cmp, via []ssa.Instruction, held, violated string) bool {
+	ok := reachedOnlyGuardedOrVia(site, cmps, via)
+	x.check(ok, key, x.pos(site), held, violated)
+	return ok
+}
+
+// reachedOnlyGuardedOrVia is the deciding part of guardedOrVia, without a report.
+func reachedOnlyGuardedOrVia(site ssa.Instruction, cmps []Cmp, via []ssa.Instruction) bool {
 	fn := site.Parent()
 	guards, _ := GuardEdges(fn, cmps, nil)
 	cut := map[prog.Edge]bool{}
@@ -31,7 +38,6 @@ func (x *Ctx) guardedOrVia(key string, site ssa.Instruction, cmps []Cmp, via []s
 	if !ok {
 		ok = len(cut) > 0 && prog.CutDisconnects(fn, site.Block(), cut)
 	}
-	x.check(ok, key, x.pos(site), held, violated)
 	return ok
 }
 
@@ -353,20 +359,59 @@ func init() {
 				})
 			}
 			n := 0
-			for _, fn := range x.P.FuncsIn(innerPkg) {
+			isMapMethod := func(fn *ssa.Function) bool {
 				r := fn.Signature.Recv()
 				if r == nil {
-					continue
+					return false
 				}
-				if pt, ok := r.Type().(*types.Pointer); !ok || !isNamed(pt.Elem(), mapT) {
-					continue
-				}
-				k := "func=" + prog.FnName(fn)
-				// fresh stores into the field
+				pt, ok := r.Type().(*types.Pointer)
+				return ok && isNamed(pt.Elem(), mapT)
+			}
+			freshStores := func(fn *ssa.Function) []ssa.Instruction {
 				var fresh []ssa.Instruction
 				for _, st := range storesTo(fn, presF) {
 					if _, isMk := prog.Strip(st.Val).(*ssa.MakeMap); isMk {
 						fresh = append(fresh, st)
+					}
+				}
+				return fresh
+			}
+			// a helper method of Map that returns only with a private map (every
+			// return is reached only after copied was seen true or after a fresh
+			// map was installed) counts, at its call sites on the same receiver,
+			// like the inlined copy-on-write block
+			ensurer := map[*ssa.Function]bool{}
+			for _, fn := range x.P.FuncsIn(innerPkg) {
+				if !isMapMethod(fn) || len(fn.Blocks) == 0 {
+					continue
+				}
+				rets := prog.Returns(fn)
+				all := len(rets) > 0
+				for _, ret := range rets {
+					if !reachedOnlyGuardedOrVia(ret, []Cmp{isTrue(copiedLoad)}, freshStores(fn)) {
+						all = false
+					}
+				}
+				if all {
+					ensurer[fn] = true
+				}
+			}
+			for _, fn := range x.P.FuncsIn(innerPkg) {
+				if !isMapMethod(fn) {
+					continue
+				}
+				k := "func=" + prog.FnName(fn)
+				// fresh stores into the field, and calls of an ensuring helper on the same receiver
+				fresh := freshStores(fn)
+				for _, b := range fn.Blocks {
+					for _, ins := range b.Instrs {
+						c, ok := ins.(*ssa.Call)
+						if !ok || c.Call.IsInvoke() || len(c.Call.Args) == 0 {
+							continue
+						}
+						if callee := c.Call.StaticCallee(); callee != nil && ensurer[callee] && len(fn.Params) > 0 && prog.Strip(c.Call.Args[0]) == ssa.Value(fn.Params[0]) {
+							fresh = append(fresh, c)
+						}
 					}
 				}
 				// (1) writes
